@@ -24,6 +24,19 @@ def vanished_variable(body_text, residual):
     return bool(used - left)
 
 
+def normalise_residual(residual):
+    """print/read matters that are not the evaluator's (C09/C15): the one-byte atoms 0x23 `#`, 0x3b `;`, 0x28 `(`,
+    0x29 `)` are printed bare and not taken back by the reader - spell them as the numbers they are (a `(` followed
+    by a blank / a `)` preceded by a blank can only be such an atom: lists print without inner blanks); `(q . ())`
+    prints as `(q)`, which the compiler's quote form does not take."""
+    residual = re.sub(r"(?<=[\s(])#(?=[\s)])", "35", residual)
+    residual = re.sub(r"(?<=[\s(]);(?=[\s)])", "59", residual)
+    residual = re.sub(r"\((?= )", "40", residual)
+    residual = re.sub(r"(?<= )\)", "41", residual)
+    residual = re.sub(r"\((q|1)\)", r"(\1 . ())", residual)
+    return residual
+
+
 def spelling_leaks(helpers, body, residual):
     """finding C16-F3 (a free variable is folded as the BYTES OF ITS OWN NAME) when the variable also survives
     elsewhere in the residual, so `vanished_variable` does not see it.  Mechanism-following test: enter the same
@@ -36,9 +49,30 @@ def spelling_leaks(helpers, body, residual):
     out = lib.run_impl("repl", [" ".join(l.encode().hex() for l in ren)], timeout=60)[0].split()
     if len(out) < 2 or out[0] != "R":
         return False
-    other = bytes.fromhex(out[1]).decode("utf8", "replace")
-    other = re.sub(r"(?<=[\s(])#(?=[\s)])", "35", other)
+    other = normalise_residual(bytes.fromhex(out[1]).decode("utf8", "replace"))
     return re.sub(r"\bQ([0-9]+)\b", r"P\1", other) != residual
+
+
+def free_variable_in_if_branch(body):
+    """does a branch of some `if` of the main expression mention a free variable (P<n>)?  (C16-F1/F3's mechanism:
+    the branches are handed to the compiler, which reads an identifier it does not know as its own quoted name;
+    when the condition folds, the branch is RUN with the name's bytes standing for the variable — whether or not
+    the variable also occurs elsewhere in the residual.  Lang/Shrink.lean mirrors it: `quoteFree`.)"""
+    def mentions(t):
+        if t[0] == "sym":
+            return re.fullmatch(r"P[0-9]+", t[1]) is not None
+        if t[0] == "list":
+            return any(mentions(x) for x in t[1]) or (t[2] is not None and mentions(t[2]))
+        return False
+
+    def walk(t):
+        if t[0] != "list":
+            return False
+        it = t[1]
+        if it and it[0] == ("sym", "if") and any(mentions(x) for x in it[2:]):
+            return True
+        return any(walk(x) for x in it)
+    return walk(body)
 
 
 def let_bound_in_if(tree):
@@ -110,6 +144,14 @@ def run(chk):
         sessions.append(" ".join(l.encode().hex() for l in lines))
         args = [p["argv"]() for _ in range(3)]
         meta.append((p, params, helpers, body, args, closed))
+    # the CORE stream: tied to the model of the reduction engine, and decided by the same oracle as the rest
+    core_cases = gen_core_sessions(rng, 240 if quick else 3000)
+    core_shrink_tie(chk, core_cases)
+    for c in core_cases:
+        p = {"tree": c["tree"], "text": progen.text(c["tree"]), "argv": c["argv"]}
+        params, helpers, body = split_program(p)
+        sessions.append(" ".join(l.encode().hex() for l in c["lines"]))
+        meta.append((p, params, helpers, body, [p["argv"]() for _ in range(3)], c["closed"]))
     outs = lib.run_impl("repl", sessions, timeout=60, per_job=6)
     comp_lines, src_lines, keep = [], [], []
     for (p, params, helpers, body, args, closed), o in zip(meta, outs):
@@ -123,11 +165,7 @@ def run(chk):
         if kind != "R":
             continue            # the evaluator may stop at its depth limit / reject: no claim
         residual = bytes.fromhex(f[1]).decode("utf8", "replace")
-        # the one-byte atom 0x23 prints as a lone `#`, which the reader does not take back (a
-        # print/read matter, C09/C15, not the evaluator's): spell it as the number it is
-        residual = re.sub(r"(?<=[\s(])#(?=[\s)])", "35", residual)
-        # likewise `(q . ())` prints as `(q)`, which the compiler's quote form does not take (print/read, not evaluation)
-        residual = re.sub(r"\((q|1)\)", r"(\1 . ())", residual)
+        residual = normalise_residual(residual)
         ah = " ".join(gen.hexv(a) for a in args)
         comp_lines.append("text:O0 " + wrap(params, helpers, progen.text(body)).encode().hex() + " " + ah)
         comp_lines.append("text:O0 " + wrap(params, helpers, residual).encode().hex() + " " + ah)
@@ -143,6 +181,13 @@ def run(chk):
             continue
         if not resid or resid[0] != "C":
             chk.count("residual-does-not-compile")
+            bare = re.sub(r'"[^"]*"', "", residual)
+            if bare.count("(") != bare.count(")"):
+                # the one-byte atoms 0x28 / 0x29 print as bare parentheses; next to a real parenthesis (`(1 . ()` =
+                # (q . 40)) no re-spelling can tell them apart, the text is simply not the tree any more: the
+                # printer's matter (C09/C15), no claim about the evaluator from this residual
+                chk.count("residual-unreadable:bare-parenthesis-atom(print matter)")
+                continue
             # a residual that cannot be compiled is only a violation if the original returns a value
             if any(x[0] == "V" for x in orig[2:]):
                 sig = "repl:residual-uncompilable"
@@ -164,12 +209,17 @@ def run(chk):
                 elif re.search(r"(?:\(|\s)(?:1|q) \. [A-Za-z0-9_]+_\$_[0-9]+\)", residual):
                     sig = "repl:let-bound-name-quoted"
                 elif not closed and (vanished_variable(progen.text(body), residual)
+                                     or free_variable_in_if_branch(body)
                                      or spelling_leaks(helpers, body, residual)):
                     sig = "repl:free-variable-folded-as-constant"
                 elif let_bound_in_if(("list", list(helpers) + [body], None)):
                     sig = "repl:let-bound-name-in-if"
                 if compilers.rest_call_of_binding_inline(p["tree"]):
                     sig = "compile:inline-rest-binding-form"
+                if y == s and compilers.has_at_literal(("list", list(helpers) + [body], None), False):
+                    # the RESIDUAL returns what the source means; the compiled ORIGINAL does not: the sessions are
+                    # compiled under cl21, where the integer literal 64 is the byte `@` (the compiler's finding C01-F6)
+                    sig = "compile:nonstrict-literal-64-is-env"
                 chk.fail("oracle", sig,
                          {"session": [progen.text(h) for h in helpers] + [progen.text(body)], "params": progen.text(params),
                           "args": gen.hexv(args[k]), "args_text": gen.show(args[k]), "closed": closed},
@@ -178,5 +228,123 @@ def run(chk):
         p, params, helpers, body, args, closed, residual = keep[0]
         chk.sample({"session": [progen.text(h) for h in helpers] + [progen.text(body)], "residual": residual[:300]})
     chk.cov["modelled_not_verified"] = [
-        "shrink_bodyform itself (evaluate.rs) is not modelled in Lean yet: the evaluator is compared against compiled code and the source semantics only",
+        "Shrink.shrink (Lang/Shrink.lean) models shrink_bodyform_visited on the core language and is tied to the real REPL "
+        "(counts core-tie:*); the soundness theorems cover variables / constants / operators / `if` with closed branches "
+        "(core-tie:agree:covered-by-theorem); function calls outside `if` branches (call-by-name captures) and residuals that "
+        "keep an undecided `if` are modelled and tied but NOT proved (core-tie:agree:model-only)",
+        "continue_apply / promote_program_to_bodyform (the symbolic CLVM evaluator reached when constant code is applied to a "
+        "non-constant environment) is not modelled: the model answers `unsup` (core-tie:engine-not-modelled(decompiler))",
+        "the depth limit (200 VisitedMarker frames) is fuel in the model, not numerically tied (core-tie:depth:*)",
+        "everything outside the core language (let/assign/lambda/inline/constants/macros): differential oracle only",
     ]
+
+
+# ----------------------------------------------------------------------------------------------------
+# tie of the modelled reduction engine (Lang/Shrink.lean, `modeld shrink`) to the real REPL (`cvh repl clvm`)
+# ----------------------------------------------------------------------------------------------------
+CORE_FEATURES = ["functions", "destructure", "literals"]
+
+
+def gen_core_sessions(rng, n):
+    """REPL sessions over the CORE language (Lang/Core.lean): 0..3 defuns (plain, recursive, destructuring
+    parameters; every 8th session also `@` captures, which the model's fragment excludes), then one expression:
+    closed (every parameter replaced by nothing: generated without parameters) or open (the parameters of the
+    generated program are free variables of the REPL expression).  Boundary classes of the proofs/model are forced
+    in: statically decided `if`s (condition (), 0x00 — a non-empty atom that is numerically zero —, a pair, a
+    number), an `if` on a free variable, free variables inside the branches of a decided `if` (findings C16-F1/F3),
+    calls with constant / destructured-constant / open arguments, a rest parameter bound to several arguments."""
+    out = []
+    for i in range(n):
+        closed = i % 2 == 0
+        feats = list(CORE_FEATURES) + (["captures"] if i % 8 == 7 else [])
+        g = progen.ProgGen(rng, "cl21", feats, nparams=(0 if closed else None))
+        p = g.program()
+        forms = p["tree"][1]
+        helpers = [f for f in forms[2:-1] if not (f[0] == "list" and f[1] and f[1][0] == ("sym", "include"))]
+        body = forms[-1]
+        kind = "plain"
+        r = rng.random()
+        S, L, I = progen.S, progen.L, progen.I
+        names = sorted(p["types"])
+        if r < 0.12:
+            kind = "if-static"
+            cond = rng.choice([progen.NILT, ("hex", b"\x00"), L(S("q"), I(1), I(2)), I(rng.randint(0, 3)),
+                               L(S("="), I(2), I(rng.choice([2, 3]))), L(S("l"), L(S("q"), I(1)))])
+            other = S(rng.choice(names)) if (names and rng.random() < 0.5) else g.lit("int")
+            body = L(S("if"), cond, body, other) if rng.random() < 0.5 else L(S("if"), cond, other, body)
+        elif r < 0.20 and names:
+            kind = "if-open"
+            body = L(S("if"), S(rng.choice(names)), body, g.lit("int"))
+        elif r < 0.27:
+            kind = "op-around-if"
+            body = L(S("c"), L(S("if"), I(rng.randint(0, 1)), body, I(5)), body)
+        elif r < 0.33:
+            # a rest parameter bound to SEVERAL call arguments (`get_bodyform_from_arginput`: the `c` chain)
+            kind = "rest-parameter"
+            fn, pa, pb = g.fresh("fn_"), g.fresh("A"), g.fresh("A")
+            helpers = helpers + [L(S("defun"), S(fn), L(S(pa), tail=S(pb)), L(S("c"), S(pb), S(pa)))]
+            body = L(S(fn), body, I(rng.randint(2, 9)), rng.choice([I(3), L(S("+"), I(1), I(2)), body]))
+        elif r < 0.37:
+            kind = "failing-operator"
+            body = L(S("c"), body, L(S("f"), L(S("+"), I(1), I(rng.randint(0, 3)))))
+        tree = ("list", [progen.S("mod"), forms[1], L(S("include"), S("*standard-cl-21*"))] + helpers + [body], None)
+        out.append({"lines": [progen.text(h) for h in helpers] + [progen.text(body)], "rich": progen.rich(tree),
+                    "closed": closed, "kind": kind, "tree": tree, "argv": p["argv"]})
+    return out
+
+
+def core_shrink_outputs(cases):
+    mo = lib.run_model("shrink", [c["rich"] for c in cases], timeout=300, per_job=20)
+    io = lib.run_impl("repl", [" ".join(l.encode().hex() for l in c["lines"]) for c in cases], args=("clvm",),
+                      timeout=120, per_job=10)
+    return list(zip(mo, io))
+
+
+def classify_core(m, i):
+    """(class, detail, in_theorem_fragment) of one session: model line `S frag|notfrag thm|nothm R hex|E|D|U`
+    vs implementation line `R texthex clvmhex | E msg | E@k msg | N`."""
+    mf, f = m.split(), i.split()
+    if not mf or mf[0] != "S":
+        return "model:" + (mf[0] if mf else "none"), "", False
+    thm = mf[2] == "thm"
+    if mf[1] != "frag":
+        return "outside-fragment", "", thm
+    mk = mf[3]
+    if mk == "U":
+        return "engine-not-modelled(decompiler)", "", thm
+    ik = f[0] if f else "none"
+    stack = ik.startswith("E") and "stack limit exceeded" in i
+    if mk == "D" or stack:
+        return ("depth:both" if (mk == "D" and stack) else "depth:one-side-only"), "", thm
+    if ik.startswith("E"):
+        return ("agree:error" if mk == "E" else "DISAGREE:impl-error"), i[:200], thm
+    if ik == "R":
+        if mk != "R":
+            return "DISAGREE:model-error", bytes.fromhex(f[1]).decode("utf8", "replace"), thm
+        if len(f) > 2 and f[2] == mf[4]:
+            return ("agree:constant" if mf[4].startswith("ff71") else "agree:residual"), "", thm
+        return "DISAGREE:result", bytes.fromhex(f[1]).decode("utf8", "replace") + " clvm=" + (f[2] if len(f) > 2 else "?"), thm
+    return "DISAGREE:" + ik, i[:200], thm
+
+
+def core_shrink_tie(chk, cases):
+    """the modelled engine against the real REPL: identical printed trees (as CLVM bytes) on every session of the
+    model's fragment; any disagreement is a correspondence failure (the same sessions also go through the
+    differential oracle below, which decides whether the implementation is at fault)."""
+    res = core_shrink_outputs(cases)
+    nbad = 0
+    for c, (m, i) in zip(cases, res):
+        cls, detail, thm = classify_core(m, i)
+        chk.count("core-tie:" + cls)
+        chk.count("core-tie:kind:" + c["kind"] + (":closed" if c["closed"] else ":open"))
+        if cls.startswith("agree"):
+            chk.count("core-tie:agree:" + ("covered-by-theorem" if thm else "model-only"))
+        chk.note_case(("core-tie", tuple(c["lines"])), True)
+        if cls.startswith("DISAGREE"):
+            nbad += 1
+            if nbad <= 5:
+                chk.fail("correspondence", "corr:shrink-model-vs-repl:" + cls.split(":", 1)[1], {"session": c["lines"]},
+                         {"model": m[:400], "impl": i[:200], "impl_text": detail[:400]})
+    if cases:
+        c, (m, i) = cases[0], res[0]
+        chk.sample({"core_session": c["lines"], "model": m[:200], "impl": i[:200]})
